@@ -191,6 +191,10 @@ pub struct Analysis<'a> {
     pub runner_depth: Vec<u16>,
     /// Driver pseudo-runs (run id -> op).
     pub driver_runs: HashMap<RunId, usize>,
+    /// Run indices per instance, in trace order (index = instance).
+    pub runs_of_inst: Vec<Vec<usize>>,
+    /// Largest command sequence number issued by each run.
+    pub max_seq_of_run: HashMap<RunId, u32>,
     /// Entity world reactor local data model: (ew, ent) -> data, replayed over the trace at EwAdd applications.
     pub structural: Vec<String>,
 }
@@ -231,11 +235,24 @@ impl<'a> Analysis<'a> {
     }
     /// True if a run of `inst` is executing at position `p` (its body or its deferred commands).
     pub fn busy_at(&self, inst: Inst, p: usize) -> bool {
-        self.runs.iter().any(|r| r.inst == inst && r.pos < p && p <= r.busy_end)
+        self.busy_run_at(inst, p).is_some()
     }
     /// The run of `inst` that is executing at `p`, if any (innermost = latest start).
     pub fn busy_run_at(&self, inst: Inst, p: usize) -> Option<usize> {
-        self.runs.iter().enumerate().filter(|(_, r)| r.inst == inst && r.pos < p && p <= r.busy_end).map(|(i, _)| i).last()
+        let list = self.runs_of_inst.get(inst)?;
+        // runs are in trace order: only those that started before `p` can be executing at `p`
+        let n = list.partition_point(|i| self.runs[*i].pos < p);
+        list[..n].iter().rev().copied().find(|i| p <= self.runs[*i].busy_end)
+    }
+    /// The runs that started strictly between two trace positions (runs are stored in trace order).
+    pub fn runs_in(&self, after: usize, before: usize) -> &[RunRec] {
+        let lo = self.runs.partition_point(|r| r.pos <= after);
+        let hi = self.runs.partition_point(|r| r.pos < before);
+        if lo <= hi {
+            &self.runs[lo..hi]
+        } else {
+            &[]
+        }
     }
     pub fn op_of_pos(&self, pos: usize) -> Option<&OpRec> {
         self.ops.iter().rev().find(|o| o.start <= pos)
@@ -309,6 +326,8 @@ pub fn analyze<'a>(prog: &'a Program, tr: &'a [Ev]) -> Analysis<'a> {
         encl: Vec::with_capacity(tr.len()),
         runner_depth: Vec::with_capacity(tr.len()),
         driver_runs: HashMap::new(),
+        runs_of_inst: vec![],
+        max_seq_of_run: HashMap::new(),
         structural: vec![],
     };
     let mut stack: Vec<u32> = vec![];
@@ -606,6 +625,15 @@ pub fn analyze<'a>(prog: &'a Program, tr: &'a [Ev]) -> Analysis<'a> {
                 },
             );
         }
+    }
+    let n_inst = a.insts.len().max(a.runs.iter().map(|r| r.inst + 1).max().unwrap_or(0));
+    a.runs_of_inst = vec![vec![]; n_inst];
+    for (i, r) in a.runs.iter().enumerate() {
+        a.runs_of_inst[r.inst].push(i);
+    }
+    for c in a.cmds.iter() {
+        let e = a.max_seq_of_run.entry(c.run).or_insert(0);
+        *e = (*e).max(c.seq);
     }
     build_ledger(&mut a);
     a
